@@ -493,6 +493,24 @@ def m_partial(f, *a, **k):
     return p
 
 
+_NOINIT = object()
+
+
+@entry("functools.reduce")
+def m_reduce(f, seq, initial=_NOINIT):
+    """left fold over a CONCRETE Python sequence (symbolic-length sequences guard their own __iter__)"""
+    items = list(seq)
+    if initial is _NOINIT:
+        if not items:
+            raise TypeError("reduce() of empty iterable with no initial value")
+        acc, items = items[0], items[1:]
+    else:
+        acc = initial
+    for x in items:
+        acc = f(acc, x)
+    return acc
+
+
 @entry("functools.wraps")
 def m_wraps(f):
     def deco(g):
@@ -880,6 +898,22 @@ def m_scan(f, init, xs=None, length=None, reverse=False, **kw):
     it.assume(kx >= 0)
     it.assume(spec.inv(kx, xs_, init))
     return xs_, None
+
+
+@entry("jax.lax.fori_loop", tier="T3")
+def m_fori_loop(lower, upper, body_fun, init_val, **kw):
+    """T3: lax.fori_loop(lo, hi, body, init) == the scan that carries (value, index): body'((v, i), _) = ((body(i, v), i + 1), None)
+    run hi - lo times from (init, lo).  Desugared to m_scan, so a contract written for a scan that threads its own counter in the carry
+    also covers the fori_loop spelling of the same loop (the loop key counts it as the function's next lax.scan)."""
+    if kw:
+        raise Untranslatable("lax.fori_loop with options")
+
+    def step(carry, _x):
+        v, i = carry
+        return (body_fun(i, v), i + 1), None
+
+    (res, _i), _ = m_scan(step, (init_val, lower), None, length=lift(upper) - lift(lower))
+    return res
 
 
 class MeanT:
